@@ -176,6 +176,54 @@ func scenarioC01(r *Run) {
 		sizes = append(sizes, fmt.Sprintf("%d/%d", na, nt))
 	}
 	r.Info["bytes(app/target)"] = sizes
+	// In one run of three with several connections they are all opened at the same instant - at a moment when
+	// the client has no session yet - and transfer at the same time: every stream must be delivered to its own
+	// peer, complete and in order, whatever its neighbours on the session are doing. (Not over DNS, see C03.)
+	if nconn > 1 && !CarrierIsDNS(carrier) && c.Chance(1, 3, "concurrent") {
+		r.Info["concurrent"] = true
+		conns := make([]*LConn, nconn)
+		var total int64
+		for i := range conns {
+			if sumWrites(plans[i].app) == 0 {
+				// the target learns which connection it serves from the first byte the application sends
+				plans[i].app = append([]Op{{Kind: "write", N: 1}}, plans[i].app...)
+			}
+			conns[i] = &LConn{I: i, TIdx: 0, Lsn: lsn, Mode: "active", PlanA: plans[i].app, PlanT: plans[i].tgt}
+			total += sumWrites(plans[i].app) + sumWrites(plans[i].tgt)
+		}
+		cs := NewConnSet(r, w, "app", conns)
+		cs.Together = true
+		extra := func() []Ev { return append(cs.OpenEv(nil), cs.PeerEvents()...) }
+		goal := func() bool {
+			cs.Assign()
+			if !cs.AllOpened() {
+				return false
+			}
+			for _, lc := range conns {
+				if !cs.Complete(lc, false) {
+					return false
+				}
+			}
+			return true
+		}
+		out := r.Drive(pol, goal, extra, 10*time.Minute, 2*time.Hour)
+		if out == Aborted {
+			return
+		}
+		if out != GoalMet {
+			r.FailSig("undelivered", sigC01(r, w, carrier, 0, 0)+" concurrent", "%s: %d connections opened at the same instant over %s did not all complete: %v", out, nconn, carrier, cs.Describe())
+			return
+		}
+		cs.CheckPairing("pairing")
+		if r.Failed() {
+			return
+		}
+		r.NonTriv = true
+		r.CountN("connections_completed", nconn)
+		r.CountN("bytes_moved", int(total))
+		r.Count("runs_with_concurrent_connections")
+		return
+	}
 	tgt.Plan = func(j int) []Op {
 		if j < len(plans) {
 			return plans[j].tgt
